@@ -3,6 +3,7 @@ import core
 import m1lib
 import molfacts
 import molgen
+from props import c18_cov
 
 # isotope-labelled hydrogens (D, T) are hydrogens: atomic number 1 whatever the isotope; labelled waters are unbonded "heavy" atoms
 # only through their oxygen
@@ -45,10 +46,11 @@ def run(ctx):
     ok, res = core.proof_step(ctx)
     rng = ctx.rng
     found = False
+    c18_cov._quiet()
     # tie on molecules with explicit hydrogens and unbonded heavy atoms, both exclude_floating values
     pool = []
     while len(pool) < ctx.n(60, 900):
-        smi = rng.choice(SALTS + molgen.SMILES[:20])
+        smi = rng.choice(SALTS + molgen.SMILES[:20] + c18_cov.EXTRA)
         m = molgen.embedded(smi, nconf=2, seed=rng.choice([3, 11]), keep_hs=rng.random() < 0.7)
         if m is not None:
             if rng.random() < 0.6:
@@ -59,7 +61,21 @@ def run(ctx):
                 m = Chem.RenumberAtoms(m, order)
                 smi = smi + ' (atoms shuffled)'
             pool.append((smi, m, rng.randrange(m.GetNumConformers())))
-    cases = m1lib.gen_cases(ctx, ctx.n(45, 700), pool=pool)
+    # fixed entries first (gen_cases walks the pool in order): a single heavy atom is kept whatever its neighbours (single_heavy_kept),
+    # several heavy atoms none of which has a heavy neighbour raise (all_floating_raises), each with explicit and implicit hydrogens
+    fixed = []
+    for smi in c18_cov.FIXED_TIE:
+        for keep in (True, False):
+            m = molgen.embedded(smi, nconf=1, seed=11, keep_hs=keep)
+            if m is not None:
+                fixed.append((smi + (' (explicit H)' if keep else ' (implicit H)'), m, 0))
+    ctx.coverage.setdefault('input_distribution', {})['fixed_single_heavy_and_all_floating_tie_cases'] = len(fixed)
+    seen = [0]
+
+    def exclusion_on_for_fixed(o):
+        seen[0] += 1
+        return dict(o, exfloat=True) if seen[0] <= len(fixed) else o
+    cases = m1lib.gen_cases(ctx, len(fixed) + ctx.n(45, 700), pool=fixed + pool, opt_filter=exclusion_on_for_fixed)
     found |= m1lib.run_cases(ctx, cases, 'C18 model/implementation tie (explicit H, floating atoms)') > 0
     # lattice molecules: many heavy-atom distances equal a shell radius exactly
     lat = [molgen.lattice_molecule(rng) for _ in range(ctx.n(80, 600))]
@@ -117,12 +133,24 @@ def run(ctx):
                     found = True
                     ctx.fail('with exclude_floating off an unbonded heavy atom contributes no identifier', {'smiles': smi, 'conf': cid, 'opts': m1lib.opts_json(o)}, finding_key='C18:floating-included')
     ctx.coverage['input_distribution']['metamorphic'] = stats
+    # coverage extension (c18_cov.py): displacement styles, deletion variants, option grid, own identifiers with exclusion off,
+    # call sequences, conformer sets, helper functions - on more input classes (see work/coverage_C18.md)
+    found |= c18_cov.run_streams(ctx, SALTS + molgen.SMILES[:30])
     ctx.coverage['rule'] = ('tie: gridded cases on salts, hydrates and molecules with explicit hydrogens under both exclude_floating values; search: hydrogens displaced, '
-                            'unbonded heavy atoms displaced and deleted (exclusion on), level-0 shells of unbonded atoms present (exclusion off); non-trivial: reaches level >= 1')
+                            'unbonded heavy atoms displaced and deleted (exclusion on), level-0 shells of unbonded atoms present (exclusion off); non-trivial: reaches level >= 1; '
+                            'extension streams (c18_cov): seven displacement styles for hydrogens / dummy atoms / unbonded atoms, two deletion variants and explicit-vs-implicit '
+                            'hydrogens compared shell by shell and through masked, folded and counted fingerprints under the increasing renumbering, every boolean option '
+                            'combination x level x counts on salts (exclusion on: equals deleted; off: own identifier = hash of own invariants at every level and fold, '
+                            'far-away unbonded atoms add exactly their own shells), default-constructed Fingerprinter, one Fingerprinter reused over variants / twins / '
+                            'conformers, fprints_dict_from_mol, coords_from_atoms / bound_atoms_from_mol / ShellsGenerator called directly')
     ctx.assumptions += ['inputs within 2^-30 of a decision threshold are tagged (harness/m1_spec.py) and skipped in the tie']
     if not ok:
         core.report_broken_proof(ctx, res, found)
 
 
 def replay(ctx, path):
+    import json
+    c = json.load(open(path)).get('case', {})
+    if 'cov_stream' in c:
+        return c18_cov.replay(ctx, c)
     return m1lib.replay_case(ctx, path)
